@@ -12,3 +12,5 @@
 (c26 (eps -) (fl (p0 F) (p1 T)) (acts (i a0 (pre (p0 T)) (eff (p1 T)))) (teff (1 (p0 T))) (tgoal (1/2 3 F F (p1 T))) (goal) (plan (2 a0 -) (3/2 a0 -)))
 ; explicit epsilon exactly a third of the smallest gap, right-open timed goal (boundary of D-C26a, still inside the property)
 (c26 (eps 1/4) (fl (n0 1)) (acts (i a0 (pre) (eff (n0 inc 1)))) (teff) (tgoal (1 7/4 F T (n0 ge 1))) (goal) (plan (1 a0 -)))
+; D-C26b (fixed by notes/patches/C26-stn-conversion-environment.patch): a problem of its own Environment with a durative action and a timed effect
+(c26 (eps -) (env F) (fl (p0 F) (p1 F)) (acts (d a (dur 2 2 F F) (cond ((S 0) (E 0) T T (p0 T))) (eff ((S 0) (p0 T)) ((E 0) (p0 F)))) (i b (pre (p0 T) (p1 T)) (eff))) (teff (1/2 (p1 T))) (tgoal) (goal) (plan (1 a 2) (2 b -)))
